@@ -1,0 +1,142 @@
+//go:build verif
+// +build verif
+
+package main
+
+import (
+	"encoding/hex"
+	"encoding/json"
+	"fmt"
+	"io/ioutil"
+	"log"
+	"net"
+	"sync"
+	"syscall"
+	"time"
+)
+
+// mirror driver: runs the REAL mirrorIPFIX / mirrorSFlow goroutine (it opens its own raw socket) on the
+// supplied datagrams and observes what arrives on the wire through a SOCK_RAW/IPPROTO_UDP receive
+// socket: the complete IP header, UDP header and payload.
+
+type verifMirrorCase struct {
+	Proto   string     `json:"proto"`
+	UDPSize int        `json:"udpsize"`
+	Dst     string     `json:"dst"`
+	Port    int        `json:"port"`
+	Dgrams  [][]string `json:"dgrams"` // [source address hex (4 or 16 octets), payload hex]
+}
+
+type verifMirrorObs struct {
+	Status string `json:"status"` // OK | PANIC | NONE
+	Packet string `json:"packet,omitempty"`
+	Detail string `json:"detail,omitempty"`
+}
+
+func init() { verifCommands["mirror"] = verifMirror }
+
+func verifMirror(raw []byte) interface{} {
+	var c verifMirrorCase
+	if err := json.Unmarshal(raw, &c); err != nil {
+		return map[string]string{"error": err.Error()}
+	}
+	opts = NewOptions()
+	opts.IPFIXUDPSize, opts.SFlowUDPSize = c.UDPSize, c.UDPSize
+	logger = log.New(ioutil.Discard, "", 0)
+	ipfixBuffer = &sync.Pool{New: func() interface{} { return make([]byte, opts.IPFIXUDPSize) }}
+	sFlowBuffer = &sync.Pool{New: func() interface{} { return make([]byte, opts.SFlowUDPSize) }}
+
+	// observer: every UDP datagram delivered to this host, with its IP header
+	fd, err := syscall.Socket(syscall.AF_INET, syscall.SOCK_RAW, syscall.IPPROTO_UDP)
+	if err != nil {
+		return map[string]string{"error": "raw receive socket: " + err.Error()}
+	}
+	defer syscall.Close(fd)
+	syscall.SetsockoptInt(fd, syscall.SOL_SOCKET, syscall.SO_RCVBUF, 1<<22)
+	tv := syscall.Timeval{Sec: 0, Usec: 300000}
+	syscall.SetsockoptTimeval(fd, syscall.SOL_SOCKET, syscall.SO_RCVTIMEO, &tv)
+	// a bound UDP socket on the target port so that the kernel does not answer with ICMP port unreachable
+	lc, _ := net.ListenUDP("udp4", &net.UDPAddr{IP: net.ParseIP(c.Dst).To4(), Port: c.Port})
+	if lc != nil {
+		defer lc.Close()
+	}
+
+	dst := net.ParseIP(c.Dst)
+	var results []verifMirrorObs
+	var chI chan IPFIXUDPMsg
+	var chS chan SFUDPMsg
+	panicked := make(chan string, 4)
+	startWorker := func() {
+		if c.Proto == "ipfix" {
+			chI = make(chan IPFIXUDPMsg, 4)
+			go func(ch chan IPFIXUDPMsg) {
+				defer func() {
+					if r := recover(); r != nil {
+						panicked <- fmt.Sprint(r)
+					}
+				}()
+				mirrorIPFIX(dst, c.Port, ch)
+			}(chI)
+		} else {
+			chS = make(chan SFUDPMsg, 4)
+			go func(ch chan SFUDPMsg) {
+				defer func() {
+					if r := recover(); r != nil {
+						panicked <- fmt.Sprint(r)
+					}
+				}()
+				mirrorSFlow(dst, c.Port, ch)
+			}(chS)
+		}
+	}
+	startWorker()
+	buf := make([]byte, 70000)
+	for _, d := range c.Dgrams {
+		src, _ := hex.DecodeString(d[0])
+		payload, _ := hex.DecodeString(d[1])
+		ip := make(net.IP, len(src))
+		copy(ip, src)
+		raddr := &net.UDPAddr{IP: ip, Port: 40000}
+		// what the worker does when mirroring is enabled: a pooled buffer holding a copy of the datagram
+		if c.Proto == "ipfix" {
+			b := ipfixBuffer.Get().([]byte)
+			b = append(b[:0], payload...)
+			chI <- IPFIXUDPMsg{raddr, b}
+		} else {
+			b := sFlowBuffer.Get().([]byte)
+			b = append(b[:0], payload...)
+			chS <- SFUDPMsg{raddr, b}
+		}
+		obs := verifMirrorObs{Status: "NONE"}
+		deadline := time.Now().Add(400 * time.Millisecond)
+	wait:
+		for time.Now().Before(deadline) {
+			select {
+			case p := <-panicked:
+				obs = verifMirrorObs{Status: "PANIC", Detail: p}
+				startWorker()
+				break wait
+			default:
+			}
+			n, _, err := syscall.Recvfrom(fd, buf, 0)
+			if err != nil || n < 28 {
+				continue
+			}
+			ihl := int(buf[0]&0x0f) * 4
+			if n >= ihl+8 && int(buf[ihl+2])<<8|int(buf[ihl+3]) == c.Port && int(buf[ihl])<<8|int(buf[ihl+1]) == 55117 {
+				obs = verifMirrorObs{Status: "OK", Packet: hex.EncodeToString(buf[:n])}
+				break wait
+			}
+		}
+		if obs.Status == "NONE" {
+			select {
+			case p := <-panicked:
+				obs = verifMirrorObs{Status: "PANIC", Detail: p}
+				startWorker()
+			default:
+			}
+		}
+		results = append(results, obs)
+	}
+	return map[string]interface{}{"results": results}
+}
